@@ -21,7 +21,8 @@ RULE = ("table cases: all (residue, atom) entries of the six built-in force fiel
         "pairs; run cases: synthetic peptides / nucleic strands / waters / fragments x 6 built-in force fields and "
         "user pairs x option mixes (neutral termini, assign-only, noopt, nodebump, ffout), protonation variants named "
         "in the input. Non-trivial: residue in a terminal position or a non-default protonation state or nucleic or "
-        "under a user force field; distinct = (force field, state-qualified residue name, chain position)")
+        "under a user force field; distinct = (force field, state-qualified residue name, chain position)"
+        ' Round-2 additions: long stretches (30-400 residues) of the local real proteins; pKa route with a stubbed pKa source (titrated states); names-history tables (one process, the same bundled DAT under plain / user names / plain again, each compared with its own model).')
 ASSUMPTIONS = ["chain ends and input residue names are the generator's ground truth",
                "the .names rules are the ones documented in docs/source/formats/xml-names.rst as implemented by "
                "vf.ref.ffmap (regex on canonical names with $ appended, $group, cumulative sections, atom aliases)"]
